@@ -269,7 +269,7 @@ def binding_demo(check, name, module, cfg, record, corrupt, expect_clause, candi
     """Corrupt one field of an accepted record; the trace spec must reject it with expect_clause.
     `candidates` (optional list of records) are tried in turn when a record is unsuitable (already
     rejected, or the corruption does not touch a checked value); at least one must demonstrate the binding."""
-    cands = [record] + list(candidates or [])
+    cands = [r for r in [record] + list(candidates or []) if r is not None]
     last = None
     for rec in cands[:6]:
         good, _ = tlc.validate_trace(module, cfg, [rec], tag='bind')
